@@ -21,8 +21,11 @@ VLEVELS = ["global", "cfg", "set", "task", "stage"]
 def var_jobs():
     jobs = []
     for sub in [s for k in range(1, 6) for s in itertools.combinations(VLEVELS, k)]:
-        for mode in (["stage"] if "stage" in sub else ["direct", "stage"]):
+        for mode, setval in [(m, sv) for m in (["stage"] if "stage" in sub else ["direct", "stage"])
+                             for sv in (("set-val", "set=val=x", "") if "set" in sub else ("set-val",))]:
             vals = {lv: "%s-val" % lv for lv in sub}
+            if "set" in vals:
+                vals["set"] = setval          # a value may itself contain '=' or be empty
             task = {"command": ['echo "v={{.v}}" >> "$PROJ/out"']}
             if "task" in vals:
                 task["variables"] = {"v": vals["task"]}
